@@ -106,6 +106,67 @@ func (p *Pkg) fieldConsts(name, fn, field string) {
 	facts.Bytes[name] = vals
 }
 
+// stmtShape records the control/call skeleton of fn in source order: `range`,
+// `if`, `return`, `assign` (=), `define` (:=), `binop:<op>` for comparisons,
+// `define,ok` / `assign,ok` for a CHECKED type assertion, `assert:<T>` for every
+// type assertion, `call:<name>` for every call (method or function name without receiver),
+// `lit:<Type>` for every composite literal.  It is what the modifier and
+// option-list models (lean/Dhcp/V6/Build.lean: applyMod, update, del) were
+// written from; any edit of the function changes it.
+func (p *Pkg) stmtShape(name, fn string) {
+	fd := p.funcDecl(fn)
+	if fd == nil || fd.Body == nil {
+		missT(name, "(List String)")
+		return
+	}
+	out := []string{}
+	ast.Inspect(fd.Body, func(n ast.Node) bool {
+		switch x := n.(type) {
+		case *ast.RangeStmt:
+			out = append(out, "range")
+		case *ast.ForStmt:
+			out = append(out, "for")
+		case *ast.IfStmt:
+			out = append(out, "if")
+		case *ast.ReturnStmt:
+			out = append(out, "return")
+		case *ast.AssignStmt:
+			kind := "assign"
+			if x.Tok.String() == ":=" {
+				kind = "define"
+			}
+			if len(x.Lhs) == 2 && len(x.Rhs) == 1 {
+				if _, ok := x.Rhs[0].(*ast.TypeAssertExpr); ok {
+					kind += ",ok" // checked type assertion
+				}
+			}
+			out = append(out, kind)
+		case *ast.TypeAssertExpr:
+			if x.Type != nil {
+				out = append(out, "assert:"+types.ExprString(x.Type))
+			}
+		case *ast.BinaryExpr:
+			switch x.Op.String() {
+			case "==", "!=", "<", "<=", ">", ">=", "&&", "||":
+				out = append(out, "binop:"+x.Op.String())
+			}
+		case *ast.CallExpr:
+			switch f := x.Fun.(type) {
+			case *ast.SelectorExpr:
+				out = append(out, "call:"+f.Sel.Name)
+			case *ast.Ident:
+				out = append(out, "call:"+f.Name)
+			default:
+				out = append(out, "call:?")
+			}
+		case *ast.CompositeLit:
+			out = append(out, "lit:"+types.ExprString(x.Type))
+		}
+		return true
+	})
+	facts.Strs[name] = out
+}
+
 func extractC16(pkgs map[string]*Pkg) {
 	p := pkgs[mod+"/dhcpv6"]
 	if p == nil {
@@ -143,6 +204,20 @@ func extractC16(pkgs map[string]*Pkg) {
 	p.factCmp("eui64Byte11", "GetMacAddressFromEUI64", "ip[11]")
 	p.factCmp("eui64Byte12", "GetMacAddressFromEUI64", "ip[12]")
 	p.factCmp("encapTypeA", "EncapsulateRelay", "mType")
+	// the option-list operations and the modifiers modelled from their bodies
+	for _, f := range [][2]string{
+		{"shape_Options_Add", "Options.Add"}, {"shape_Options_Del", "Options.Del"}, {"shape_Options_Update", "Options.Update"},
+		{"shape_Message_AddOption", "Message.AddOption"}, {"shape_Message_UpdateOption", "Message.UpdateOption"},
+		{"shape_RelayMessage_AddOption", "RelayMessage.AddOption"}, {"shape_RelayMessage_UpdateOption", "RelayMessage.UpdateOption"},
+		{"shape_WithFQDN", "WithFQDN"}, {"shape_WithDomainSearchList", "WithDomainSearchList"},
+		{"shape_WithIANA", "WithIANA"}, {"shape_WithIATA", "WithIATA"}, {"shape_WithIAPD", "WithIAPD"},
+		{"shape_OneIATA", "MessageOptions.OneIATA"}, {"shape_IATA", "MessageOptions.IATA"},
+		{"shape_OneIAPD", "MessageOptions.OneIAPD"}, {"shape_IAPD", "MessageOptions.IAPD"},
+	} {
+		p.stmtShape(f[0], f[1])
+	}
+	p.factConst("ocIATA", "OptionIATA")
+	p.factConst("ocFQDN", "OptionFQDN")
 }
 
 func init() { extraExtractors = append(extraExtractors, extractC16) }
